@@ -568,7 +568,13 @@ def main(argv):
     if len(argv) >= 2 and argv[1] == "--build":
         # setup: warm the Go build cache for every variant any plan uses
         ok = True
+        try:
+            enabled = [l.strip() for l in open(os.path.join(HERE, "enabled.txt")) if l.strip() and not l.startswith("#")]
+        except OSError:
+            enabled = sorted(PLAN)
         for prop in sorted(PLAN):
+            if prop not in enabled:
+                continue
             for v in sorted({ln["variant"] for ln in PLAN[prop]["jobs"]}):
                 ok = (build(prop, v) is not None) and ok
         return 0 if ok else 2
